@@ -14,6 +14,7 @@ for res in sorted(os.listdir('/tmp/sv')):
     dst = '/verif/seeded/%s' % name
     os.makedirs(dst, exist_ok=True)
     for f in ('patch.diff', 'zz_demo_test.go', 'demo_path.txt', 'notes.md'):
+        if f == 'patch.diff' and os.path.exists(os.path.join(dst, 'REBASED.txt')): continue
         if os.path.exists(os.path.join(src, f)): shutil.copy(os.path.join(src, f), os.path.join(dst, f))
     notes = open(os.path.join(src, 'notes.md')).read() if os.path.exists(os.path.join(src, 'notes.md')) else ''
     meta = {
